@@ -19,11 +19,11 @@ func init() {
 	core.Register(&core.Check{
 		ID:     "C01",
 		Level:  "model_checking",
-		Shards: func(tier string) int { return len(mach.Strict()) },
+		Shards: func(tier string) int { return len(mach.Strict()) * subShards },
 		Run:    run,
 		Replay: replay,
 		Rule: "BFS over product states (implementation abstract key x RFC 8259 PDA state), every one of the 256 byte values plus 3 macro inputs from every state; " +
-			"distinct_nontrivial = product states; evaluations = executions of the real front-end (reader byte-wise, []byte whole, probes)",
+			"plus the whitespace-placement family (every witness x one whitespace insertion x {as is, completed} x {[]byte, one chunk, every 2-split}); distinct_nontrivial = product states; evaluations = executions of the real front-end",
 		Assumptions: []string{"nesting bounded by D (control flow reads only the top two stack slots and emptiness)",
 			"jsonref is the specification; it is cross-checked against encoding/json.Valid on every explored input",
 			"abstract key merges states that differ only in data (digits, string bytes, element counts above 2)"},
@@ -68,9 +68,12 @@ type group struct {
 	obs   string
 }
 
+const subShards = 4
+
 func run(c *core.Ctx) {
 	ms := mach.Strict()
 	m := ms[c.Shard%len(ms)]
+	sub := c.Shard / len(ms)
 	D := c.Pick(3, 5)
 	e := &bytemc.Explorer{M: m, D: D}
 	probeMemo := map[string]*probeEntry{}
@@ -92,6 +95,9 @@ func run(c *core.Ctx) {
 	refChecks := int64(0)
 	e.Stop = func() bool { return c.Expired("C01 BFS " + m.Name) }
 	e.OnState = func(s *bytemc.State) {
+		if sub != 0 {
+			return
+		}
 		// end-of-input answer in this state
 		o := s.EOFOut
 		implAccept := !o.Failed()
@@ -111,6 +117,9 @@ func run(c *core.Ctx) {
 		}
 	}
 	e.OnTrans = func(t *bytemc.Trans) {
+		if sub != 0 {
+			return
+		}
 		c.Eval()
 		s := t.From
 		if t.Sym.Macro != "" {
@@ -177,6 +186,7 @@ func run(c *core.Ctx) {
 	for _, h := range e.Harness {
 		c.HarnessError("%s", h)
 	}
+	placement(c, m, e, sub, addGroup)
 	// emit groups as failures
 	ids := make([]int, 0, len(perState))
 	for id := range perState {
@@ -195,14 +205,67 @@ func run(c *core.Ctx) {
 			c.Fail(sig, cs, len(g.wit), g.exp, g.obs)
 		}
 	}
-	c.Add("states", int64(len(e.States)))
-	c.Add("transitions", e.NTrans)
-	c.Add("traces_validated_against_impl", e.NTrans)
-	c.Add("reference_cross_checks", refChecks)
-	c.Add("cut_at_depth_bound", e.CutDepth)
-	c.Add("distinct_nontrivial", int64(len(e.States)))
-	for i := 1; i < len(e.States) && i < 4000; i += 997 {
+	if sub == 0 {
+		c.Add("states", int64(len(e.States)))
+		c.Add("transitions", e.NTrans)
+		c.Add("traces_validated_against_impl", e.NTrans)
+		c.Add("reference_cross_checks", refChecks)
+		c.Add("cut_at_depth_bound", e.CutDepth)
+		c.Add("distinct_nontrivial", int64(len(e.States)))
+	}
+	for i := 1; sub == 0 && i < len(e.States) && i < 4000; i += 997 {
 		c.Sample(map[string]string{"machine": m.Name, "witness": fmt.Sprintf("%q", e.States[i].Witness), "impl": e.States[i].Key, "ref": e.States[i].Ref.Key()})
+	}
+}
+
+// placement is the whitespace-placement family: the accept set must not depend
+// on where blanks and newlines sit between tokens, nor on where a read
+// boundary falls. For every reachable state's witness and every variant with
+// one whitespace string inserted at one inter-token position, the variant
+// itself (end of input here) and its shortest valid completion are submitted
+// to the []byte entry point, to the reader in one chunk and in every 2-split;
+// the verdict must equal the reference's.
+func placement(c *core.Ctx, m *mach.M, e *bytemc.Explorer, sub int, addGroup func(s *bytemc.State, entry, kind, target string, b []byte, wit []byte, exp, obs string)) {
+	for _, s := range e.States {
+		if s.ID%subShards != sub || len(s.Witness) > 24 || s.Ref.SawBOM || s.Ref.M == jsonref.Bom1 || s.Ref.M == jsonref.Bom2 {
+			continue
+		}
+		if c.Expired("C01 placement family") {
+			return
+		}
+		for vi, v := range bytemc.OneInsertion(s.Witness) {
+			if vi == 0 {
+				continue // the plain witness is judged by the search itself
+			}
+			r := jsonref.Run(v)
+			if !r.Alive() {
+				continue
+			}
+			inputs := [][]byte{v}
+			if comp, ok := bytemc.Complete(r); ok && len(comp) > 0 {
+				inputs = append(inputs, append(append([]byte{}, v...), comp...))
+			}
+			for _, in := range inputs {
+				p := jsonref.Run(in)
+				want := p.Accepting() || p.NoDocument()
+				judge := func(entry string, o *mach.Out) {
+					c.Eval()
+					c.Add("placement_runs", 1)
+					if got := !o.Failed(); got != want {
+						kind := "placement-rejects-valid"
+						if got {
+							kind = "placement-accepts-invalid"
+						}
+						addGroup(s, entry, kind, "", nil, in, fmt.Sprintf("accept=%v", want), fmt.Sprintf("accept=%v err=%v", got, o.Err))
+					}
+				}
+				judge("whole", m.Whole(in, e.Cfg))
+				judge("reader", m.Feed([][]byte{in}, e.Cfg, false, false))
+				for i := 1; i < len(in); i++ {
+					judge("reader", m.Feed([][]byte{in[:i], in[i:]}, e.Cfg, false, false))
+				}
+			}
+		}
 	}
 }
 
